@@ -220,6 +220,15 @@ def run(tier, seed):
                 sob.update({"verdict": "inconclusive", "message": "the obligation is discharged but a real node's UserManager breaks it on a sampled history: %s" % val["message"]})
     obligations.append(sob)
     # ---- S18.4 the console handlers' call sites: a namespace named by the request is checked before the data layer is reached
+    # the composed configuration key: a validated key survives build_key -> from (the rule "composed-key" of the call-site obligation rests on it)
+    from . import c18key
+    for kob in c18key.run(tier, seed):
+        if kob.get("verdict") == "violation" and not os.environ.get("VERIF_NO_NATIVE"):
+            from lib import native
+            path = native.write_replay("C18", "c18", "model", [], {"engine": "smt", "mode": "model-only", "obligation": kob["harness"], "message": kob["message"], "model": kob.get("counterexample")})
+            kob["replay_path"] = path
+            kob["replay"] = {"path": path, "outcome": "model-only", "message": "key components before and after build_key -> from"}
+        obligations.append(kob)
     from . import c18sites
     for cob in c18sites.run(tier, seed):
         if cob.get("verdict") == "violation" and not os.environ.get("VERIF_NO_NATIVE"):
